@@ -49,7 +49,7 @@ func checkC20(c *Ctx) {
 		"(Y4) every store to the members slice reachable from Add happens with the write lock held and after a non-blocking test, made in the same lock hold, that found neither the pool context done nor the Cancel channel closed; every return of Add has either seen the pool ended or appended the offered context to the existing members; " +
 		"(Y5) every close of the Cancel channel reachable from Cancel happens under the write lock after observing members != nil in the same hold (or inside sync.Once.Do) and members is set to nil before that hold ends; " +
 		"(Y6) NewPool's loop over the initial contexts is left only by its index test (index 0..len-1 step 1) and an iteration that does not append the context's Done channel to a slice flowing into the members field has observed that context done; " +
-		"(Y7) every return of Cancel has stored nil to members or seen it nil. " +
+		"(Y7) every return of Cancel has stored nil to members or seen it nil; (Y8) while the pool is shared, every store to the members slice is an append to the current members (or Cancel's nil) and no element is overwritten, moved or removed (sub-slices, filtered/rebuilt slices, slices.Delete & co. are reported; unknown producers are UNDECIDED) — the watcher's positional index relies on it. " +
 		"NOT decided: the history-level claim 'never early / always eventually' over all cancellation orders and Add timings; that Size returns exactly len(members); that the channel waited for is the one at the current index."
 	r.Assumptions = append(r.Assumptions,
 		"sync.RWMutex may be unlocked by a goroutine other than the locker (documented), which is what the NewPool hand-off relies on",
@@ -60,6 +60,7 @@ func checkC20(c *Ctx) {
 	r.Rule("C20.Y4-add", "Add stores to members only under the write lock after finding, in the same hold, the pool neither done nor cancelled; every return saw the pool ended or appended the offered context", 2)
 	r.Rule("C20.Y6-initial", "NewPool considers every initial context: the loop is left only by its index test, and an iteration that does not append has seen that context done", 1)
 	r.Rule("C20.Y7-cancel-clears", "every return of Cancel has cleared members or seen it nil (Size is zero after Cancel)", 1)
+	r.Rule("C20.Y8-grow-only", "while the pool is shared the members slice only grows: every store to it is an append to the current members (or Cancel's nil), no element is removed, moved or overwritten — the watcher's positional index relies on it", 1)
 	r.Rule("C20.Y5-cancel", "the Cancel channel is closed only under the write lock, at most once (members != nil seen and members cleared in the same hold, or sync.Once)", 1)
 
 	ro, why := resolveC20Roles(p)
@@ -620,6 +621,25 @@ func (a *c20) checkGuard() {
 			}
 		}
 	}
+	// Y8: writes that change what the slice holds: stores to the field itself and writes to its elements
+	fieldStore := map[ssa.Instruction]*ssa.Store{}
+	elemWrite := map[ssa.Instruction]string{}
+	for _, fn := range a.k.Funcs {
+		allInstrs(fn, func(in ssa.Instruction) {
+			if st, ok := in.(*ssa.Store); ok {
+				if fa, ok := st.Addr.(*ssa.FieldAddr); ok && fieldIDOfAddr(fa) == a.ro.Members {
+					fieldStore[in] = st
+				}
+			}
+		})
+		for _, acc := range FieldAccesses(fn, func(id FieldID) bool { return id == a.ro.Members }) {
+			if acc.Kind == AccWrite && fieldStore[acc.Instr] == nil {
+				elemWrite[acc.Instr] = acc.What
+			}
+		}
+	}
+	storeRoots := map[ssa.Instruction]map[*ssa.Function]bool{} // shared-phase stores -> entry points reaching them
+	elemSeen := map[ssa.Instruction]*ssa.Function{}
 	visited := map[ssa.Instruction]bool{}
 	type root struct {
 		fn    *ssa.Function
@@ -660,6 +680,17 @@ func (a *c20) checkGuard() {
 			if ns, ok := a.lockStep(x, in, s); ok {
 				return ns
 			}
+			if s&bPriv == 0 {
+				if fieldStore[in] != nil {
+					if storeRoots[in] == nil {
+						storeRoots[in] = map[*ssa.Function]bool{}
+					}
+					storeRoots[in][rt.fn] = true
+				}
+				if _, ok := elemWrite[in]; ok {
+					elemSeen[in] = rt.fn
+				}
+			}
 			if m, ok := need[in]; ok {
 				if !visited[in] {
 					visited[in] = true
@@ -697,6 +728,7 @@ func (a *c20) checkGuard() {
 			r.Violation("C20.Y1-guard", construct, p.Pos(pos), "accesses to the members slice are not protected by the Pool mutex on some path of this entry point", w...)
 		}
 	}
+	a.checkGrowOnly(fieldStore, storeRoots, elemWrite, elemSeen)
 	var missed []string
 	for in := range need {
 		if !visited[in] {
@@ -706,6 +738,225 @@ func (a *c20) checkGuard() {
 	if len(missed) > 0 {
 		sort.Strings(missed)
 		r.Undecide("C20.Y1-guard: accesses to the members slice that no followed path of an entry point reaches (function values, dead code?): %s", strings.Join(missed, ", "))
+	}
+}
+
+// appendedElems collects the elements appended along the chain of appends,
+// re-slices and slices.Clip/Grow/Clone that leads from the members to v.
+// decoded=false if some appended argument is not a list of single elements.
+func (a *c20) appendedElems(v ssa.Value, depth int) ([]ssa.Value, bool) {
+	if depth > 8 {
+		return nil, false
+	}
+	src, open := a.k.origins(v)
+	if open {
+		return nil, false
+	}
+	var out []ssa.Value
+	okAll := true
+	for _, o := range src {
+		switch q := o.(type) {
+		case *ssa.Slice:
+			e, ok := a.appendedElems(q.X, depth+1)
+			out, okAll = append(out, e...), okAll && ok
+		case *ssa.Call:
+			if builtinName(q) == "append" {
+				_, elems, decoded, _ := c20AppendInfo(q)
+				if !decoded {
+					okAll = false
+				}
+				out = append(out, elems...)
+				e, ok := a.appendedElems(q.Call.Args[0], depth+1)
+				out, okAll = append(out, e...), okAll && ok
+			} else if obj := calleeObj(q); obj != nil && obj.Pkg() != nil && obj.Pkg().Path() == "slices" && len(q.Call.Args) >= 1 {
+				e, ok := a.appendedElems(q.Call.Args[0], depth+1)
+				out, okAll = append(out, e...), okAll && ok
+			}
+		}
+	}
+	return out, okAll
+}
+
+// growth classes of a slice value relative to the members slice
+type c20Growth int
+
+const (
+	c20Same   c20Growth = iota // the current members, same elements in the same order
+	c20Grown                   // the current members plus appended elements
+	c20Shrunk                  // positively something else: a strict sub-slice, a rebuilt / filtered / fresh / nil slice, a library function that removes or moves elements
+	c20Opaque                  // not known
+	c20Cycle                   // (internal) loop-carried value under evaluation
+)
+
+// growth classifies a slice value by what it holds compared with the members
+// slice it was derived from.
+func (a *c20) growth(v ssa.Value, visiting map[ssa.Value]bool) c20Growth {
+	if visiting[v] {
+		return c20Cycle
+	}
+	visiting[v] = true
+	defer delete(visiting, v)
+	src, open := a.k.origins(v)
+	res := c20Cycle
+	join := func(g c20Growth) {
+		switch {
+		case g == c20Cycle:
+		case res == c20Cycle:
+			res = g
+		case g == c20Shrunk || res == c20Shrunk:
+			res = c20Shrunk
+		case g == c20Opaque || res == c20Opaque:
+			res = c20Opaque
+		case g == c20Grown || res == c20Grown:
+			res = c20Grown
+		}
+	}
+	if open {
+		join(c20Opaque)
+	}
+	for _, o := range src {
+		if o == v && len(src) > 1 {
+			continue
+		}
+		switch q := o.(type) {
+		case *ssa.Const:
+			join(c20Shrunk) // nil: drops everything
+		case *ssa.MakeSlice:
+			join(c20Shrunk)
+		case *ssa.Slice:
+			if _, isArr := deref(q.X.Type()).Underlying().(*types.Array); isArr {
+				join(c20Shrunk) // a fresh literal
+				continue
+			}
+			g := a.growth(q.X, visiting)
+			lowOK := q.Low == nil
+			if k, ok := q.Low.(*ssa.Const); ok && k.Value != nil && k.Int64() == 0 {
+				lowOK = true
+			}
+			highOK := q.High == nil
+			if c, ok := q.High.(*ssa.Call); ok && builtinName(c) == "len" && len(c.Call.Args) == 1 {
+				s1, o1 := a.k.origins(c.Call.Args[0])
+				s2, o2 := a.k.origins(q.X)
+				if !o1 && !o2 && len(s1) == 1 && len(s2) == 1 && (s1[0] == s2[0] || a.isMembersLoad(s1[0]) && a.isMembersLoad(s2[0])) {
+					highOK = true
+				}
+			}
+			if lowOK && highOK {
+				join(g)
+			} else if g == c20Opaque {
+				join(c20Opaque)
+			} else {
+				join(c20Shrunk) // a strict sub-slice (p.pool[:0], p.pool[1:], p.pool[:n])
+			}
+		case *ssa.Call:
+			if builtinName(q) == "append" && len(q.Call.Args) >= 1 {
+				switch g := a.growth(q.Call.Args[0], visiting); g {
+				case c20Same, c20Grown:
+					join(c20Grown)
+				default:
+					join(g)
+				}
+				continue
+			}
+			if obj := calleeObj(q); obj != nil && obj.Pkg() != nil && obj.Pkg().Path() == "slices" && len(q.Call.Args) >= 1 {
+				switch obj.Name() {
+				case "Clip", "Grow", "Clone":
+					join(a.growth(q.Call.Args[0], visiting))
+				default:
+					// Delete, DeleteFunc, Compact, Insert, Replace, Reverse, Sort…: elements are removed or moved
+					if g := a.growth(q.Call.Args[0], visiting); g == c20Opaque {
+						join(c20Opaque)
+					} else {
+						join(c20Shrunk)
+					}
+				}
+				continue
+			}
+			join(c20Opaque)
+		default:
+			if a.isMembersLoad(o) {
+				join(c20Same)
+			} else {
+				join(c20Opaque)
+			}
+		}
+	}
+	return res
+}
+
+// checkGrowOnly: Y8. The watcher walks the members by position and never goes
+// back, so while the pool is shared the slice may only grow at its end.
+func (a *c20) checkGrowOnly(fieldStore map[ssa.Instruction]*ssa.Store, storeRoots map[ssa.Instruction]map[*ssa.Function]bool, elemWrite map[ssa.Instruction]string, elemSeen map[ssa.Instruction]*ssa.Function) {
+	r, p := a.r, a.p
+	cancelReach := a.k.reach(a.cancel)
+	perFn := map[*ssa.Function][]string{}
+	undec := map[*ssa.Function][]string{}
+	okFn := map[*ssa.Function]int{}
+	var ins []ssa.Instruction
+	for in := range storeRoots {
+		ins = append(ins, in)
+	}
+	sort.Slice(ins, func(i, j int) bool { return instrPos(ins[i]) < instrPos(ins[j]) })
+	for _, in := range ins {
+		st := fieldStore[in]
+		fn := in.Parent()
+		if isNilConst(st.Val) {
+			onlyCancel := true
+			for rt := range storeRoots[in] {
+				if rt != a.cancel {
+					onlyCancel = false
+				}
+			}
+			if onlyCancel && cancelReach[fn] {
+				okFn[fn]++
+				continue
+			}
+			perFn[fn] = append(perFn[fn], "the members are dropped (nil) at "+p.Pos(instrPos(in))+" outside Cancel")
+			continue
+		}
+		switch a.growth(st.Val, map[ssa.Value]bool{}) {
+		case c20Same, c20Grown, c20Cycle:
+			okFn[fn]++
+		case c20Shrunk:
+			perFn[fn] = append(perFn[fn], "the slice stored at "+p.Pos(instrPos(in))+" is not the current members grown at the end (a sub-slice, a filtered/rebuilt or fresh slice, or the result of a function that removes or moves elements): members the watcher has not reached yet move to positions it has already passed, so the pool can end while they are live")
+		default:
+			undec[fn] = append(undec[fn], "what the slice stored at "+p.Pos(instrPos(in))+" holds relative to the current members is not known")
+		}
+	}
+	ins = ins[:0]
+	for in := range elemSeen {
+		ins = append(ins, in)
+	}
+	sort.Slice(ins, func(i, j int) bool { return instrPos(ins[i]) < instrPos(ins[j]) })
+	for _, in := range ins {
+		fn := in.Parent()
+		perFn[fn] = append(perFn[fn], "an element of the members slice is overwritten / moved / cleared ("+elemWrite[in]+") at "+p.Pos(instrPos(in)))
+	}
+	fns := map[*ssa.Function]bool{}
+	for fn := range perFn {
+		fns[fn] = true
+	}
+	for fn := range undec {
+		fns[fn] = true
+	}
+	for fn := range okFn {
+		fns[fn] = true
+	}
+	var order []*ssa.Function
+	for fn := range fns {
+		order = append(order, fn)
+	}
+	sort.Slice(order, func(i, j int) bool { return FuncName(p, order[i]) < FuncName(p, order[j]) })
+	for _, fn := range order {
+		construct := FuncName(p, fn) + " members only grow"
+		switch {
+		case len(perFn[fn]) > 0:
+			r.Violation("C20.Y8-grow-only", construct, p.Pos(fn.Pos()), strings.Join(perFn[fn], "; "))
+		case len(undec[fn]) > 0:
+			r.Undecide("C20.Y8-grow-only %s: %s", construct, strings.Join(undec[fn], "; "))
+		default:
+			r.OK("C20.Y8-grow-only", construct, p.Pos(fn.Pos()), "every store to the members slice made while the pool is shared appends to the current members (or is Cancel's nil)")
+		}
 	}
 }
 
@@ -1382,20 +1633,15 @@ func (a *c20) checkAdd() {
 			stores[in] = "the store is not preceded, in the same write-lock hold, by a non-blocking test that found both the pool context not done and the Cancel channel not closed (a Cancel can slip in between, or a member is added to an ended pool)"
 		}
 		sv, _ := x.Resolve(st.Val)
-		src, open := a.k.origins(sv)
-		if open || len(src) != 1 {
+		switch a.growth(sv, map[ssa.Value]bool{}) {
+		case c20Grown:
+		case c20Opaque:
+			f.Imprecise["the members slice is assigned a value whose relation to the current members is not modelled"] = true
 			return s
+		default:
+			return s // not the current members grown at the end (Y8 reports it if it can lose members)
 		}
-		base, elems, decoded, isApp := c20AppendInfo(src[0])
-		if !isApp {
-			if c, ok := src[0].(*ssa.Call); ok && builtinName(c) == "" {
-				f.Imprecise["the members slice is assigned the result of "+callDesc(c)+", which is not modelled"] = true
-			}
-			return s
-		}
-		if a.orig(x, base, a.isMembersLoad) != c20Yes {
-			return s // replaces the members instead of growing them
-		}
+		elems, decoded := a.appendedElems(sv, 0)
 		if !decoded || offered == nil {
 			return s | bAP
 		}
